@@ -79,8 +79,10 @@ class Check:
 
     def match_known(self, replay_obj):
         shape = replay_obj.get("finding_shape")
+        if shape is None:
+            return None
         for f in self.findings:
-            if shape is not None and f.get("shape") == shape:
+            if shape_matches(f.get("shape"), shape):
                 return f
         return None
 
@@ -125,6 +127,25 @@ class Check:
         self.ev.d["violations"] = rc
         self.ev.write()
         return rc
+
+
+def shape_matches(pattern, shape):
+    """pattern: dict; a value "*" matches anything, a list matches any of its elements,
+    keys missing in the pattern are not constrained; keys in the pattern must be present."""
+    if not isinstance(pattern, dict) or not isinstance(shape, dict):
+        return pattern == shape
+    for k, pv in pattern.items():
+        if k not in shape:
+            return False
+        sv = shape[k]
+        if pv == "*":
+            continue
+        if isinstance(pv, list) and not isinstance(sv, list):
+            if sv not in pv:
+                return False
+        elif pv != sv:
+            return False
+    return True
 
 
 def load_corpus(pid):
